@@ -3,7 +3,7 @@ Spec: retry layer of specs/Failsafe.tla (+ invariants C02_*); retry-centred stac
 configurations and timed outcomes; every behaviour replayed on the real library in virtual time."""
 import vlib, seq
 
-RETRIES = ["rp", "rp0", "rp1", "rp3", "rpH", "rpHE", "rpH2", "rpA", "rpA2", "rpAM", "rpAR", "rpL", "rpU", "rpD", "rpUD", "rpDL"]
+RETRIES = ["rp", "rp0", "rp1", "rp3", "rpH", "rpHE", "rpH2", "rpA", "rpA2", "rpAM", "rpAR", "rpL", "rpU", "rpD", "rpUD", "rpDL", "rpDS"]
 INNER = ["cbB", "cbX", "fbH", "fbX", "bh1", "rl2"]
 OUTS = [seq.out("R0"), seq.out("R1"), seq.out("R0", "E1"), seq.out("R0", "E2"), seq.out("R1", "E3")]      # (the last: a result together with an error)
 OUTS_T = [seq.out("R1", d=1), seq.out("R0", "E1"), seq.out("R0", "E1", d=1), seq.out("R0", "E1", d=2), seq.out("R0", "E2", d=3)]
@@ -24,7 +24,7 @@ def run(ctx):
     # model as in the code; with a max duration the clamped delays stop the virtual clock at exactly maxDuration, which
     # is not "exceeded". Not generated.
     mixed = [[r, i] for r in RETRIES for i in INNER if not (r in ("rpU", "rpUD") and i in ("cbB", "cbX", "rl2"))] + [[i, r] for r in RETRIES for i in INNER]
-    timed = [[r] for r in ["rpD", "rpUD", "rpDL", "rp1"]] + [["rpD", "rp1"], ["rp1", "rpD"], ["rpD", "cbB"]]
+    timed = [[r] for r in ["rpD", "rpUD", "rpDL", "rpDS", "rp1"]] + [["rpD", "rp1"], ["rp1", "rpD"], ["rpD", "cbB"]]
     mc = 4 if quick else 6
     jobs = [
         dict(ctx=ctx, binary=binary, name="single", stacks=single, outs=OUTS, maxcalls=5, execs=2, workers=6),
